@@ -840,6 +840,8 @@ class Engine:
             if not args:
                 return SBytes.from_elems([], mutable=(f is bytearray))
             (o,) = args
+            if isinstance(o, Obj):
+                o = self.call(self.getattr_(o, '__bytes__'), [], {})
             if isinstance(o, (bytes, bytearray)):
                 return SBytes.from_bytes(bytes(o), mutable=(f is bytearray))
             if isinstance(o, SBytes):
